@@ -680,6 +680,9 @@ func ParseSInterP(buf string) frt.Tuple2[string, []string] {
 			}
 			c2 := buf[i]
 			res.WriteByte(c2)
+		} else if c == '%' {
+			// result is used as format string.
+			res.WriteString("%%")
 		} else if c == '{' {
 			i++
 			vbeg := i
